@@ -475,7 +475,11 @@ CHECKS = {
     "L2votes": "l2_votes",
     "L2consCur": "l2_cons Cur",
     "L2consFix": "l2_cons Fixed",
+    "L2tags": "l2_tags",
+    "Hef": "hyp_error_free",
+    "Hsites": "hyp_sites",
 }
+CONSISTENT_STREAMS = ("plain", "prephased", "params", "foreign")   # the phased VCF is a phasing of the reads' haplotypes
 
 
 # =============================================================================== python-side summaries
@@ -573,6 +577,15 @@ def report(ctx, meta, failing):
     l2 = []
     if failing["L2votes"]:
         l2.append(("HaplotagPhase.compute_votes = compute_votes (L2)", failing["L2votes"]))
+    if failing["L2tags"]:
+        l2.append(("HaplotagPhase.tags_of (haplotag_decide) = HP/PS tags written by haplotag (L2)", failing["L2tags"]))
+    # the premises of the theorems hold on the data for which clause 1 is checked
+    prem_bad = [i for i in sorted(set(failing["Hef"]) | set(failing["Hsites"]))
+                if i not in prov_fail and meta[i][0]["stream"] in CONSISTENT_STREAMS]
+    ctx.tally("cases.theorem_premises_hold",
+              sum(1 for i in range(n) if i not in prov_fail and meta[i][0]["stream"] in CONSISTENT_STREAMS) - len(prem_bad))
+    if prem_bad:
+        l2.append(("premises of C17_consensus_reproduces (error_free, same sites) hold on the generated pipelines", prem_bad))
     if cur_bad and fix_bad:
         which = cur_bad if len(cur_bad) <= len(fix_bad) else fix_bad
         l2.append(("HaplotagPhase.haplotagphase/consensus = run_haplotagphase/consensus (L2)", which))
